@@ -61,7 +61,7 @@ def rec_of(kind, r):
         inner = [rec_of(r.choice(["C", "C2", "P"]), r) for _ in range(r.randint(0, 3))]
         return ["rec", DHL, [["list", inner], t()], m]
     if kind == "G":
-        ks = r.choice([["C", "P"], ["A", "P"], ["B", "C2"], ["P", "C"]])
+        ks = r.choice([["C", "P"], ["A", "P"], ["B", "C2"], ["P", "C"], ["C", "C2"], ["C2", "C", "P"], ["P", "C2", "C"]])
         return ["grouped", "grp/x", [rec_of(k, r) for k in ks]]
     if kind == "HAB":  # inner collision: one frame holds records of A and of B
         return ["rec", DHL, [["list", [rec_of("A", r), rec_of("B", r)]], t()], m]
